@@ -974,6 +974,33 @@ theorem src_table_call_eq_spec (tbl : List K) (h : tbl ≠ []) (den : K) (freq p
 example : ALV.Gen.C19.table_call (fieldOps : NumOps Rat) [0, 10, 20, 30] 1 (.num (3/8)) (.num (1/2)) 4
     = (tableCallG (fieldOps : NumOps Rat) [0, 10, 20, 30] 1 (.num (3/8)) (.num (1/2)) 4).1 := by decide +kernel
 
+/-- **C19.src.14** `TableLookup.__getitem__` as regenerated from the source (D15 as repaired: `left = int(floor(idx))`,
+both neighbours `% len(self)`, the weights `1. - (idx - left)` and `idx - left`) is `getItemNow` … -/
+theorem src_table_getitem_is_model {α : Type} : @ALV.Gen.C19.table_getitem α = @getItemNow α := by
+  funext o floor tbl idx; exact gen_table_getitem o floor tbl idx
+
+/-- … hence, over exact numbers and a non-empty table, the cyclic linear interpolation `interpCyc` for EVERY index,
+negative and fractional ones included, raising nothing; on an empty table it raises ZeroDivisionError. -/
+theorem src_table_getitem_eq_spec (tbl : List K) (h : tbl ≠ []) (idx : K) :
+    ALV.Gen.C19.table_getitem fieldOps (fun x => .ok (Floor.floor x)) tbl idx = .ok (interpCyc tbl idx) := by
+  have hL : ((tbl.length : Nat) : Int) ≠ 0 := by
+    have := List.length_pos_of_ne_nil h; omega
+  have key : getItemNow fieldOps (fun x => .ok (Floor.floor x)) tbl idx
+      = match getItemLen tbl tbl.length idx with
+        | some v => .ok v
+        | none => .error "IndexError" := by
+    simp only [getItemNow, getItemLen, hL, if_false, fieldOps]
+    cases pyIndex tbl ((Floor.floor idx : Int).fmod (tbl.length : Int)) <;>
+      cases pyIndex tbl ((pyCeil idx).fmod (tbl.length : Int)) <;> rfl
+  rw [gen_table_getitem, key, getItemLen_eq tbl h idx]
+
+theorem src_table_getitem_empty {α : Type} (o : NumOps α) (floor : α → Except String Int) (idx : α) (k : Int)
+    (hf : floor idx = .ok k) : ALV.Gen.C19.table_getitem o floor [] idx = .error "ZeroDivisionError" := by
+  simp [gen_table_getitem, getItemNow, hf]
+
+example : ALV.Gen.C19.table_getitem (fieldOps : NumOps Rat) (fun x => .ok (Floor.floor x)) [0, 10, 20, 30] (-1/2)
+    = .ok 15 := by decide +kernel
+
 /-- **C19.src.9** the defaults and decorators as written in the source are the documented ones. -/
 theorem src_defaults_are_documented :
     ALV.Gen.C19.defaults = [("modulo_counter", "start", "0.0"), ("modulo_counter", "modulo", "256.0"),
@@ -982,7 +1009,7 @@ theorem src_defaults_are_documented :
       ("impulse", "one", "1.0"), ("impulse", "zero", "0.0"), ("sinusoid", "phase", "0.0"), ("table_call", "phase", "0.0")] ∧
     ALV.Gen.C19.decorators = [("modulo_counter", ["tostream"]), ("line", ["tostream"]), ("fadein", []),
       ("fadeout", []), ("attack", []), ("adsr", ["tostream"]), ("ones", ["tostream"]), ("zeros", ["tostream"]),
-      ("impulse", ["tostream"]), ("sinusoid", ["tostream"]), ("table_call", [])] := by decide
+      ("impulse", ["tostream"]), ("sinusoid", ["tostream"]), ("table_call", []), ("table_getitem", [])] := by decide
 
 -- the regenerated definitions run: fast path with the batch boundary crossed, start a stream, …
 example : ALV.Gen.C19.modulo_counter (fieldOps : NumOps Rat) (.num 1) (.num 5) (.num 2) 6 = ([1, 3, 0, 2, 4, 1], none) ∧
